@@ -477,8 +477,10 @@ class Translator:
             v = self.eval(e, env, mod, depth)
             if v is None or (isinstance(v, Opaque) and v.name.split(".")[-1] == "newaxis"):
                 return None
-            if isinstance(v, (list, tuple)) and v and all(x is sp.true or x is sp.false or isinstance(x, bool) for x in v):
+            if isinstance(v, (list, tuple)) and all(x is sp.true or x is sp.false or isinstance(x, bool) for x in v):
                 v = np.array(list(v), dtype=object)
+            if isinstance(v, np.ndarray) and v.size == 0:
+                return np.zeros(v.shape, dtype=bool)  # an empty mask selects nothing
             if isinstance(v, np.ndarray) and v.dtype == object and v.size and all(x is sp.true or x is sp.false or isinstance(x, bool) for x in v.reshape(-1)):
                 return np.array([bool(x) for x in v.reshape(-1)], dtype=bool).reshape(v.shape)  # decided boolean mask
             if isinstance(v, np.ndarray) and v.dtype == object and all(is_sym(x) and x.is_Integer for x in v.reshape(-1)):
@@ -1282,7 +1284,7 @@ def _boolish(v):
     """a truth value or an array of truth values (sympy relationals / booleans)"""
     from sympy.logic.boolalg import Boolean
     if isinstance(v, np.ndarray):
-        return v.dtype == object and v.size > 0 and all(isinstance(x, (bool, Boolean)) for x in v.reshape(-1))
+        return v.dtype == object and all(isinstance(x, (bool, Boolean)) for x in v.reshape(-1))  # an empty mask is a mask
     return isinstance(v, (bool, Boolean))
 
 
